@@ -436,6 +436,16 @@ void vf_world_init(size_t mtu, int wifi, uint8_t fill) {
     vf_world_reset();
 }
 
+/* a platform whose string attributes all have their maximal legal length: 64-byte hardware ID without terminator (what
+ * os/darwin/lltd_port.c makes of a UUID), a machine name longer than a Hello may carry, 32-byte SSIDs */
+void vf_rich_platform(void) {
+    for (size_t i = 0; i < 64; i++) W.host.hwid[i] = (uint8_t)('A' + (i / 2) % 26) * (uint8_t)(1 - (i & 1));
+    W.host.hwid_len = 64;
+    static const char longname[] = "a-rather-long-machine-name-of-fifty-one-characters.";
+    memcpy(W.host.hostname, longname, sizeof longname - 1); W.host.hostname_len = sizeof longname - 1;
+    for (int i = 0; i < VF_NIFACE; i++) { memcpy(W.iface[i].ssid, "an-ssid-of-the-maximal-length-32", 32); W.iface[i].ssid_len = 32; }
+}
+
 void vf_world_reset(void) {
     heap_reset();
     if (core_bss_size) raw_zero(__start_core_bss, core_bss_size);
